@@ -49,7 +49,7 @@ def do_import(src, prop, tag):
             if r.returncode:
                 print(sid, 'REJECT: does not compile')
                 continue
-            b = sh([PY, '/tmp/seedkit/check_baseline.py', wt])
+            b = sh([PY, os.path.join(VERIF, 'tools', 'baseline_check.py'), wt])
             if b.returncode:
                 print(sid, 'REJECT: baseline not green',
                       b.stdout.strip().splitlines()[-3:])
